@@ -100,6 +100,19 @@ class Ctx:
             self.undecided(rule, ("", fn.__name__, None), fn.__name__, "the analysis behind this rule could not be completed: %s: %s" % (type(e).__name__, str(e)[:160]))
             return None
 
+    def adopt_from(self, prop, calls, mapping):
+        """run rule functions of another property on a scratch context and take their instances over under our ids.
+        calls: [(function, extra positional args)] - each is called as function(scratch, *args), guarded"""
+        scratch = Ctx(self.repo, prop, self.tier)
+        for r in mapping:
+            scratch.rule(r, "", 0)
+        first = sorted(set(mapping.values()))[0]
+        for fn, args in calls:
+            args = [a(scratch) if callable(a) and getattr(a, "_needs_scratch", False) else a for a in args]
+            self.guarded(first, fn, scratch, *args)
+        self.adopt(scratch, mapping)
+        self.units.update({k: v for k, v in scratch.units.items() if k not in self.units})
+
     def adopt(self, other, mapping):
         """take over the instances of another context's rules under this property's rule ids (mapping: their id -> ours);
         used where one property's clause is literally another property's rule (e.g. 'survives the codec' = C01's rules)"""
